@@ -93,7 +93,7 @@ func summariseGuard(f *FuncInfo, base *FlowSpec, cg CallGuard) []CallGuard {
 		if n == 0 {
 			continue
 		}
-		name := Names(ShortName(h.Obj))
+		name := NameSet{ShortName(h.Obj): true} // (not Names: a summary does not make the helper a named function)
 		switch {
 		case all:
 			out = append(out, CallGuard{Fact: cg.Fact, Callee: name, Pass: OCalled, NoArgDeps: true, InDefer: cg.InDefer})
